@@ -94,11 +94,12 @@ mod h_expr {
         kani::cover!(tc.block_declares[0], "COV:C13.expr.then_block_declaring_a_name_reached");
     }
 
+    macro_rules! body_scope_case {
+        ($name:ident, $which:expr) => {
     #[kani::proof]
     #[kani::unwind(8)]
-    fn c13_u2_block_while_for_scopes() {
-        let which: u8 = kani::any();
-        kani::assume(which < 3);
+    fn $name() {
+        let which: u8 = $which;
         let (mut tc, f) = checker();
         let before = tc.type_info.scope_graph.scopes.len();
         let ctx = Context { expected_type: Type::Var(0) };
@@ -122,9 +123,13 @@ mod h_expr {
         }
         let probe = Meta { node: Identifier(LOCAL), id: MetaId(901) };
         assert!(tc.type_info.scope_graph.resolve_name(f, &probe, true).is_none(), "OBL:C13.expr.block_local_names_do_not_leak_into_the_enclosing_scope");
-        kani::cover!(which == 2, "COV:C13.expr.for_reached");
-        kani::cover!(which == 1 && tc.block_declares[0], "COV:C13.expr.while_body_declaring_a_name_reached");
+        kani::cover!(tc.block_declares[0], "COV:C13.expr.body_declaring_a_name_reached");
     }
+        };
+    }
+    body_scope_case!(c13_u2_block_scope, 0);
+    body_scope_case!(c13_u2_while_scope, 1);
+    body_scope_case!(c13_u2_for_scope, 2);
 
     #[kani::proof]
     #[kani::unwind(8)]
